@@ -14,8 +14,14 @@
 //!              default arguments may only mention file-scope names
 //!           O2 every call of an emitted function matches one of its definitions: arity (defaults only at the end),
 //!              and at every parameter that carries a threaded global the argument denotes that same global
-//!           O3 a function has a parameter for a threaded global iff it mentions it or calls a function that needs it;
-//!              non-object globals are passed by reference
+//!           O3 a function has a parameter for a threaded global iff it needs it; non-object globals are passed by
+//!              reference.  Reading of "needs" (fixed with the lead after the fix batch): a function needs a global
+//!              when its emitted body mentions it, when one of its *source* default-argument expressions mentions it
+//!              (defaults are evaluated at the call sites on Metal, but they belong to the function), when it calls —
+//!              in its body or in a default argument — a function that needs it, or when the initialiser of a global
+//!              it needs mentions it / calls a function that needs it (the initial value is part of the global).
+//!              The default-argument and initialiser dependencies are read off the typed IR by a walker of our own
+//!              (`ir_deps`), not taken from the usage analysis under test.
 use crate::util::*;
 use rssl::ast;
 use std::collections::{BTreeMap, BTreeSet};
@@ -857,7 +863,114 @@ const ENTRY_NAMES: &[&str] = &["ComputeShaderEntry", "VertexShaderEntry", "Pixel
 
 /// `threaded`: names of globals Metal cannot keep at file scope (None: every name that some function receives as
 /// a by-reference parameter or that is a local of the entry wrapper — used for free-form source)
-fn oracle(defs: &[DefInfo], threaded: &BTreeSet<String>, by_value_ok: &BTreeSet<String>) -> Vec<String> {
+/// Source-level dependencies that do not show in the emitted function bodies: per function the globals and
+/// functions its default-argument expressions mention, per global those its initialiser mentions
+#[derive(Default)]
+struct SrcDeps {
+    defaults: BTreeMap<String, (BTreeSet<String>, BTreeSet<String>)>,
+    inits: BTreeMap<String, (BTreeSet<String>, BTreeSet<String>)>,
+}
+
+fn ir_deps_init(i: &rssl::ir::Initializer, gs: &mut Vec<rssl::ir::GlobalId>, fs: &mut Vec<rssl::ir::FunctionId>) {
+    match i {
+        rssl::ir::Initializer::Expression(e) => ir_deps(e, gs, fs),
+        rssl::ir::Initializer::Aggregate(v) => {
+            for x in v {
+                ir_deps_init(x, gs, fs);
+            }
+        }
+    }
+}
+
+/// every global and function an IR expression mentions (our own walker: independent of usage_analysis.rs)
+fn ir_deps(e: &rssl::ir::Expression, gs: &mut Vec<rssl::ir::GlobalId>, fs: &mut Vec<rssl::ir::FunctionId>) {
+    use rssl::ir::Expression as X;
+    match e {
+        X::Literal(_) | X::Variable(_) | X::MemberVariable(_, _) | X::ConstantVariable(_) | X::EnumValue(_) | X::SizeOf(_) => {}
+        X::Global(id) => gs.push(*id),
+        X::TernaryConditional(a, b, c) => {
+            ir_deps(a, gs, fs);
+            ir_deps(b, gs, fs);
+            ir_deps(c, gs, fs);
+        }
+        X::Sequence(v) => {
+            for x in v {
+                ir_deps(x, gs, fs);
+            }
+        }
+        X::Swizzle(a, _) | X::MatrixSwizzle(a, _) | X::StructMember(a, _, _) | X::ObjectMember(a, _) | X::Cast(_, a) => {
+            ir_deps(a, gs, fs)
+        }
+        X::ArraySubscript(a, b) => {
+            ir_deps(a, gs, fs);
+            ir_deps(b, gs, fs);
+        }
+        X::Call(id, _, args) => {
+            fs.push(*id);
+            for x in args {
+                ir_deps(x, gs, fs);
+            }
+        }
+        X::Constructor(_, slots) => {
+            for sl in slots {
+                ir_deps(&sl.expr, gs, fs);
+            }
+        }
+        X::IntrinsicOp(_, args) => {
+            for x in args {
+                ir_deps(x, gs, fs);
+            }
+        }
+    }
+}
+
+fn src_deps(ir: &rssl::ir::Module) -> SrcDeps {
+    let mut d = SrcDeps::default();
+    let names = |gs: &[rssl::ir::GlobalId], fs: &[rssl::ir::FunctionId]| {
+        let g: BTreeSet<String> = gs
+            .iter()
+            .filter(|g| !ir.global_registry[g.0 as usize].is_intrinsic)
+            .map(|g| ir.global_registry[g.0 as usize].name.node.clone())
+            .collect();
+        let f: BTreeSet<String> = fs
+            .iter()
+            .filter(|f| ir.function_registry.get_intrinsic_data(**f).is_none())
+            .map(|f| ir.function_registry.get_function_name(*f).to_string())
+            .collect();
+        (g, f)
+    };
+    for id in ir.function_registry.iter() {
+        if ir.function_registry.get_intrinsic_data(id).is_some() {
+            continue;
+        }
+        if let Some(imp) = ir.function_registry.get_function_implementation(id) {
+            let (mut gs, mut fs) = (Vec::new(), Vec::new());
+            for p in &imp.params {
+                if let Some(e) = &p.default_expr {
+                    ir_deps(e, &mut gs, &mut fs);
+                }
+            }
+            if !gs.is_empty() || !fs.is_empty() {
+                let (g, f) = names(&gs, &fs);
+                let e = d.defaults.entry(ir.function_registry.get_function_name(id).to_string()).or_default();
+                e.0.extend(g);
+                e.1.extend(f);
+            }
+        }
+    }
+    for g in ir.global_registry.iter().filter(|g| !g.is_intrinsic) {
+        if let Some(i) = &g.init {
+            let (mut gs, mut fs) = (Vec::new(), Vec::new());
+            ir_deps_init(i, &mut gs, &mut fs);
+            if !gs.is_empty() || !fs.is_empty() {
+                d.inits.insert(g.name.node.clone(), names(&gs, &fs));
+            }
+        }
+    }
+    d
+}
+
+fn oracle(defs: &[DefInfo], threaded: &BTreeSet<String>, by_value_ok: &BTreeSet<String>, deps: &SrcDeps) -> Vec<String> {
     let mut fails = Vec::new();
     let user: Vec<&DefInfo> = defs.iter().filter(|d| !d.in_helper_ns).collect();
     // O1
@@ -933,20 +1046,41 @@ fn oracle(defs: &[DefInfo], threaded: &BTreeSet<String>, by_value_ok: &BTreeSet<
                 e.insert(m.clone());
             }
         }
+        // source default arguments belong to the function
+        if let Some((gs, _)) = deps.defaults.get(&d.name) {
+            for g in gs {
+                if threaded.contains(g) {
+                    e.insert(g.clone());
+                }
+            }
+        }
     }
     loop {
         let mut changed = false;
         for d in &user {
-            for c in &d.calls {
-                if c.callee == d.name {
+            let mut callees: Vec<String> = d.calls.iter().map(|c| c.callee.clone()).collect();
+            if let Some((_, fs)) = deps.defaults.get(&d.name) {
+                callees.extend(fs.iter().cloned());
+            }
+            // initialisers of the globals the function needs
+            let cur: Vec<String> = needs.get(d.name.as_str()).map(|s| s.iter().cloned().collect()).unwrap_or_default();
+            let mut add: Vec<String> = Vec::new();
+            for g in &cur {
+                if let Some((gs, fs)) = deps.inits.get(g) {
+                    add.extend(gs.iter().filter(|g| threaded.contains(*g)).cloned());
+                    callees.extend(fs.iter().cloned());
+                }
+            }
+            for c in &callees {
+                if *c == d.name {
                     continue;
                 }
-                let add: Vec<String> = needs.get(c.callee.as_str()).map(|s| s.iter().cloned().collect()).unwrap_or_default();
-                let e = needs.entry(d.name.as_str()).or_default();
-                for a in add {
-                    if !d.locals.contains(&a) && e.insert(a) {
-                        changed = true;
-                    }
+                add.extend(needs.get(c.as_str()).map(|s| s.iter().cloned().collect::<Vec<_>>()).unwrap_or_default());
+            }
+            let e = needs.entry(d.name.as_str()).or_default();
+            for a in add {
+                if !d.locals.contains(&a) && e.insert(a) {
+                    changed = true;
                 }
             }
         }
@@ -1135,7 +1269,7 @@ fn analyse(
             &inferred
         }
     };
-    let fails = oracle(&defs, threaded, by_value_ok);
+    let fails = oracle(&defs, threaded, by_value_ok, &src_deps(ir));
     let shown: Vec<String> = defs
         .iter()
         .filter(|d| !d.in_helper_ns && d.has_body && fset.contains(&d.name))
@@ -1286,9 +1420,8 @@ fn call_depth(p: &GProg) -> usize {
     depth.into_iter().max().unwrap_or(0)
 }
 
-/// Random call graph over statics/groupshared/externs. Default arguments and global initialisers stay inside the
-/// configurations in which the analysis is complete (they only mention file-scope constants): the shapes on
-/// which it is not are listed findings and live in corpus/C02.txt.
+/// Random call graph over statics/groupshared/externs, with defaulted parameters (literal, a mention of any global,
+/// or a call), calls that omit defaulted arguments, and static initialisers that mention earlier statics.
 fn gen_prog(rng: &mut Rng, big: bool) -> GProg {
     let ng = rng.below(if big { 9 } else { 6 }) as usize;
     let mut globals: Vec<GGlobal> = Vec::new();
@@ -1306,8 +1439,10 @@ fn gen_prog(rng: &mut Rng, big: bool) -> GProg {
         let fl = row.1;
         let mut inits = Vec::new();
         if row.0 == "plain" && fl == "S" {
+            // initialisers mention earlier statics (constant or threaded); extern resources in an initialiser are a
+            // listed finding (the kernel has them only as `setN.name`)
             for (k, g) in globals.iter().enumerate() {
-                if g.class == "plain" && g.is_const && rng.chance(1, 2) {
+                if (g.class == "plain" || g.class == "struct") && rng.chance(1, 3) {
                     inits.push(k);
                 }
             }
@@ -1349,9 +1484,6 @@ fn gen_prog(rng: &mut Rng, big: bool) -> GProg {
             let want_call = i > 0 && rng.chance(1, 2);
             if want_call {
                 let c = rng.below(i as u64) as usize;
-                if defaulted && dirty[c] {
-                    continue;
-                }
                 let callee = &funcs[c];
                 // number of arguments: all, or drop some trailing defaulted ones
                 let nd = callee.modes.iter().rev().take_while(|m| **m == 'd').count();
@@ -1364,7 +1496,7 @@ fn gen_prog(rng: &mut Rng, big: bool) -> GProg {
                         .enumerate()
                         .filter(|(_, g)| {
                             let row = g.class_row().unwrap();
-                            (if out { row.4.is_some() } else { g.class != "sampler" }) && !(defaulted && g.threaded())
+                            if out { row.4.is_some() } else { g.class != "sampler" }
                         })
                         .map(|(k, _)| k)
                         .collect();
@@ -1386,9 +1518,6 @@ fn gen_prog(rng: &mut Rng, big: bool) -> GProg {
             } else if !globals.is_empty() {
                 let g = rng.below(globals.len() as u64) as usize;
                 let gl = &globals[g];
-                if defaulted && gl.threaded() {
-                    continue;
-                }
                 let row = gl.class_row().unwrap();
                 let pos = if gl.class == "sampler" {
                     *rng.pick(&["xs", "sq", "bl"])
@@ -1403,17 +1532,24 @@ fn gen_prog(rng: &mut Rng, big: bool) -> GProg {
                 items.push(GItem { pos: pos.to_string(), what: What::Use(g) });
             }
         }
-        // a default argument that mentions a file-scope constant or calls a clean function
-        if defaulted && rng.chance(1, 2) {
-            let consts: Vec<usize> =
-                globals.iter().enumerate().filter(|(_, g)| g.class == "plain" && g.is_const).map(|(k, _)| k).collect();
-            let clean: Vec<usize> =
-                (0..i).filter(|c| !dirty[*c] && funcs[*c].modes.iter().all(|m| *m == 'i' || *m == 'd')).collect();
-            if !consts.is_empty() && rng.chance(1, 2) {
-                items.insert(0, GItem { pos: "da".into(), what: What::Use(*rng.pick(&consts)) });
-            } else if !clean.is_empty() {
-                let c = *rng.pick(&clean);
+        // a default argument that mentions a global (threaded or constant) or calls an earlier function passing
+        // all of its arguments (functions with in/defaulted parameters only: a default cannot bind an out argument)
+        if defaulted && rng.chance(2, 3) {
+            let mentionable: Vec<usize> =
+                globals.iter().enumerate().filter(|(_, g)| g.class != "sampler").map(|(k, _)| k).collect();
+            let callable: Vec<usize> = (0..i).filter(|c| funcs[*c].modes.iter().all(|m| *m == 'i' || *m == 'd')).collect();
+            if !mentionable.is_empty() && (callable.is_empty() || rng.chance(1, 2)) {
+                let g = *rng.pick(&mentionable);
+                if globals[g].threaded() {
+                    is_dirty = true;
+                }
+                items.insert(0, GItem { pos: "da".into(), what: What::Use(g) });
+            } else if !callable.is_empty() {
+                let c = *rng.pick(&callable);
                 let n = funcs[c].modes.len();
+                if dirty[c] {
+                    is_dirty = true;
+                }
                 items.insert(0, GItem { pos: "da".into(), what: What::Call(c, vec![None; n]) });
             }
         }
